@@ -1,4 +1,10 @@
-"""C08 — IPv4 fragment reassembly reconstructs the original datagram."""
+"""C08 — IPv4 fragment reassembly reconstructs the original datagram.
+
+Theorems: lean/TinsModel/Props/C08.lean (inside the hypothesis: refinement of a datagram-aware reference; arbitrary
+sessions: model_refines_policy, process_all_cases, never_from_incomplete_all, fragmented_cases, no_fault,
+interleave_independent_all, live_streams_*, late_duplicate_leaks) and Props/C08Wire.lean (end to end with the wire
+families' model of pdu_from_flag).  Oracles (lean/Driver/C08.lean, run on the implementation's output): the
+datagram-aware reference, the policy reference (every call of every history), history-level safety clauses."""
 import itertools, json, os, random, struct
 from vlib import core, corr
 
@@ -523,7 +529,7 @@ def run(chk):
     if quick:
         go(grid_cases(5, 5, rng, sample=3000))
     else:
-        gc = grid_cases(3, 3, rng)                                                  # exhaustive: 24^3 sequences
+        gc = grid_cases(4, 3, rng)                                                  # exhaustive: 40^3 sequences
         for i in range(0, len(gc), 20000):
             go(gc[i:i + 20000])
         go(grid_cases(6, 6, rng, sample=60000))
